@@ -933,10 +933,15 @@ impl<'s> Tokenizer<'s> {
     }
 }
 
-/// The largest width or precision accepted in a format string.
+/// The largest width accepted in a format string.
 const MAX_FORMAT_NUMBER: usize = 100_000_000;
 
-fn parse_number(cursor: &mut Cursor) -> Result<Option<usize>, Error> {
+/// The largest precision accepted in a format string.  The digits are
+/// produced by Rust's own formatting machinery which panics on a precision
+/// above `u16::MAX`; the general format asks it for up to four digits more.
+const MAX_FORMAT_PRECISION: usize = u16::MAX as usize - 4;
+
+fn parse_number(cursor: &mut Cursor, max: usize) -> Result<Option<usize>, Error> {
     let digit_count = cursor
         .rest_bytes()
         .iter()
@@ -957,7 +962,7 @@ fn parse_number(cursor: &mut Cursor) -> Result<Option<usize>, Error> {
             .with_source(e)
         }));
         // widths and precisions turn into allocations of that size
-        if num > MAX_FORMAT_NUMBER {
+        if num > max {
             return Err(Error::new(
                 ErrorKind::InvalidOperation,
                 format!(
@@ -1114,7 +1119,7 @@ mod printf_style {
             zero_padded = false;
         }
 
-        let mut width = ok!(parse_number(cursor));
+        let mut width = ok!(parse_number(cursor, MAX_FORMAT_NUMBER));
         if zero_padded && width.is_none() {
             // if '0' is not followed by width (i.e. digit+), then it should be parsed as
             // a width, not as zero-padding.
@@ -1124,7 +1129,7 @@ mod printf_style {
 
         let precision = cursor
             .advance_if(b'.')
-            .then(|| parse_number(cursor))
+            .then(|| parse_number(cursor, MAX_FORMAT_PRECISION))
             .transpose()?
             .flatten();
 
@@ -1301,7 +1306,7 @@ mod str_format_style {
     }
 
     fn parse_field_name<'s>(cursor: &mut Cursor<'s>) -> Result<Option<FieldName<'s>>, Error> {
-        if let Some(num) = ok!(parse_number(cursor)) {
+        if let Some(num) = ok!(parse_number(cursor, MAX_FORMAT_NUMBER)) {
             Ok(Some(FieldName::Positional(num, ok!(parse_path(cursor)))))
         } else if let Some(ident) = parse_identifier(cursor) {
             Ok(Some(FieldName::Kwarg(ident, parse_path(cursor)?)))
@@ -1376,7 +1381,7 @@ mod str_format_style {
         let alternate_form = cursor.advance_if(b'#');
         let mut zero_padded = cursor.advance_if(b'0');
 
-        let mut width = ok!(parse_number(cursor));
+        let mut width = ok!(parse_number(cursor, MAX_FORMAT_NUMBER));
         if zero_padded && width.is_none() {
             // if '0' is not followed by width (i.e. digit+), then it should be parsed as
             // a width, not as zero-padding.
@@ -1394,7 +1399,7 @@ mod str_format_style {
 
         let precision = cursor
             .advance_if(b'.')
-            .then(|| parse_number(cursor))
+            .then(|| parse_number(cursor, MAX_FORMAT_PRECISION))
             .transpose()?
             .flatten();
 
